@@ -152,6 +152,16 @@ func c16ts(c *Ctx) {
 			restoreWindow()
 			c.R.Add("cases_after_a_saveflags_window", 1)
 		}
+		// the application's DEFAULT logger may have time settings of its own: they are that logger's, not the process's
+		if r.P(15) {
+			saved := slog.Default()
+			d := slog.New("default16")
+			d.SetTimeFormat(gen.Pick(r, c16layouts))
+			d.SetUTCMode(r.Bool())
+			slog.SetDefault(d)
+			defer slog.SetDefault(saved)
+			c.R.Add("cases_with_a_default_logger_that_has_time_settings", 1)
+		}
 		f := Format(r.Intn(3))
 		lg := newRoot(gen.Pick(r, []string{"", "t16"}), f, w, slog.AlwaysLevel)
 		utc := r.Intn(3) // 0 unset, 1 SetUTCMode(false), 2 SetUTCMode(true)
